@@ -148,6 +148,9 @@ impl Property for C12 {
     fn cases(&self, tier: Tier) -> u32 {
         tier.pick(500, 10000)
     }
+    fn inprocess(&self) -> bool {
+        true
+    }
     fn strategy(&self, tier: Tier) -> BoxedStrategy<Case> {
         let max_msgs = tier.pick(30, 100);
         let e2e = (prop::sample::subsequence(BS_POOL.to_vec(), 3), 67u64..9000, any_codec_or_plain(), any::<bool>())
